@@ -1,7 +1,7 @@
 """C04 - a library server never acknowledges a protocol version it does not support."""
 from harness.sm import *  # noqa
 from harness import sm
-from harness.h_C08 import init_version, near_version, reinit, make_server, VER, _in  # noqa
+from harness.h_C08 import init_version, near_version, reinit, make_server, VER, _in, init_long, init_nth  # noqa
 import importlib
 
 INIT = sys.modules["chuk_mcp.protocol.messages.initialize.send_messages"]
